@@ -37,6 +37,10 @@ func RunC12(c *Ctx, r *Report) {
 	c.encodeOwnHeaderRule(r, prefix+"encode-own-header")
 	c.elementFreshRule(r, prefix+"decode.element-fresh")
 	c.akaOrderRule(r, prefix+"aka.order")
+	// decoding is a function of the octets, not of what an earlier call left in the object decoded into
+	dscope := c.DecodeScope(r, prefix)
+	c.decodeInputOnlyRule(r, prefix+"decode.input-only", dscope)
+	c.noTruncateInPlaceRule(r, prefix+"decode.no-truncate-in-place", dscope)
 }
 
 // RunC14 decides property C14.
@@ -89,6 +93,12 @@ func RunC14(c *Ctx, r *Report) {
 		}
 	}
 	c.valueGuardRule(r, prefix+"value-guards")
+	// decoding is a function of the octets, not of what an earlier call left in the object decoded into
+	{
+		dscope := c.DecodeScope(r, prefix)
+		c.decodeInputOnlyRule(r, prefix+"decode.input-only", dscope)
+		c.noTruncateInPlaceRule(r, prefix+"decode.no-truncate-in-place", dscope)
+	}
 	// length slot and constants
 	ruleL := prefix + "eap.length-and-type"
 	r.Rule(ruleL, "the EAP length field carries the final packet length; each method body starts with its type octet constant (1, 2, 3, 254)", 5)
